@@ -14,7 +14,7 @@ open PyGql PyGql.SchemaValid PyGql.SchemaValidSpec PyGql.Generated.SchemaValidTa
 
 /-- fix C13-S12 is in the tree: the comparison `validate()` makes covers everything the validator reads (root types,
     names, fields and their types, interfaces, union members, enum values, input fields, directives) -/
-theorem cache_tracks_structure : cfgCacheTracksStructure = true := by decide
+private theorem cache_tracks_structure : cfgCacheTracksStructure = true := by decide
 
 /-- **FULL since fix C13-S12** (was refuted: `cache_sound_all_mutators_fails_today`): every operation of the machine,
     with NO side condition on structural plain assignments, keeps "cached-valid ⇒ the current schema is valid". -/
